@@ -86,12 +86,44 @@ Proof.
 Qed.
 Print Assumptions C08_loop.
 
+(* "it therefore never busy-loops": over any run of the poll loop - any outcome
+   pattern, any PRNG draws - there is exactly one sleep per failed list call,
+   and the time slept in total is at least 0.9 x 1 ms (less 1 ns truncation)
+   per failed call, hence at least one nanosecond per failed call *)
+Theorem C08_no_busy_loop : forall outcomes ks,
+  Z.of_nat (length outcomes) < 2^64 ->
+  length ks = length (sleeps outcomes) ->
+  Forall (fun k => 0 <= k < 2^53) ks ->
+  Z.of_nat (length (sleeps outcomes)) = failures outcomes /\
+  failures outcomes <= total_wait delay_now (sleeps outcomes) ks /\
+  (jitter_den - jitter_num) * firstRetryWaitDuration * failures outcomes
+    <= jitter_den * total_wait delay_now (sleeps outcomes) ks + jitter_den * failures outcomes.
+Proof.
+  intros outs ks _ Hl Hk.
+  pose proof (sleeps_from_count outs 0) as Hc. fold (sleeps outs) in Hc.
+  pose proof (sleeps_from_range outs 0 ltac:(lia)) as R. fold (sleeps outs) in R.
+  split; [exact Hc|]. rewrite <- Hc. split.
+  - pose proof (total_wait_lower delay_now 1 1 0) as L. cbv beta in L.
+    assert (H1 : forall n k, 0 <= n < 2^64 -> 0 <= k < 2^53 -> 1 <= 1 * delay_now n k + 0)
+      by (intros n k Hn Hk'; pose proof (proj1 (C08_positive_bounded n k Hn Hk')); lia).
+    pose proof (L H1 (sleeps outs) ks R Hk Hl). lia.
+  - apply (total_wait_lower delay_now ((jitter_den - jitter_num) * firstRetryWaitDuration) jitter_den jitter_den); try assumption.
+    intros n k Hn Hk'.
+    destruct (C08_positive_bounded n k Hn Hk') as [_ [Hlo _]].
+    destruct (C08_schedule n Hn) as [_ [Hb _]].
+    assert (Hj : 0 <= jitter_den - jitter_num) by (pose proof side5; lia).
+    nia.
+Qed.
+Print Assumptions C08_no_busy_loop.
+
 (* non-vacuity and sharpness *)
 Example C08_example_values :
   map base_now [0; 1; 11; 12; 62; 63; 64; 2^32; 2^64 - 1] =
   [1000000; 2000000; 2048000000; 3000000000; 3000000000; 3000000000; 3000000000; 3000000000; 3000000000]
-  /\ spec_sleeps [false; false; true; false] = [0; 1; 0].
-Proof. split; vm_compute; reflexivity. Qed.
+  /\ spec_sleeps [false; false; true; false] = [0; 1; 0]
+  /\ failures [false; false; true; false] = 3
+  /\ total_wait delay_now (sleeps [false; false; true; false]) [0; 2^52; 2^53 - 1] = 900000 + 2000000 + 1099999.
+Proof. repeat split; vm_compute; reflexivity. Qed.
 
 (* without the overflow guard the delay is not positive at 63, 64 and wraps at 54 *)
 Example C08_sharp_no_guard :
